@@ -1,3 +1,4 @@
+pub mod filter;
 pub mod model;
 pub mod report;
 pub mod rng;
